@@ -409,6 +409,7 @@ func c02Gen(t *rapid.T) c02Case {
 	for i := range c.Spec.Parts {
 		if pick("partdesc") {
 			c.Spec.Parts[i].Desc = hostile("partdesc")
+			c.Spec.Parts[i].DescBySetter = rapid.Bool().Draw(t, "partdescsetter")
 		}
 	}
 	files := func(fs []gen.FileSpec) {
@@ -435,7 +436,7 @@ func c02Gen(t *rapid.T) c02Case {
 func c02Describe() {
 	rec := core.Rec("C02")
 	rec.Rule = "rapid draws a message shape (QP or base64 message encoding, i.e. Q or B word encoder; 0..2 parts, 0..1 embeds, 0..2 attachments) and feeds hostile strings (each with a unique marker; fragments: CR/LF/CRLF + 'X-Inj-<marker>: 1', CRLF CRLF + body, NUL/C0/DEL, invalid UTF-8, RFC 5322 specials, encoded-word lookalikes, words of 60..300 bytes, many words, blanks, non-ASCII text, arbitrary bytes, header/boundary lookalikes) " +
-		"to a drawn subset of: Subject, SetGenHeader (1..3 values, standard and X- names), SetMessageIDWithValue, SetOrganization, SetUserAgent, display names via FromFormat/EnvelopeFromFormat/ReplyToFormat/AddToFormat/AddCcFormat/AddBccFormat/To/ToIgnoreInvalid/RequestMDNToFormat/RequestMDNAddToFormat, file names, file descriptions, file content-ids, part descriptions. " +
+		"to a drawn subset of: Subject, SetGenHeader (1..3 values, standard and X- names), SetMessageIDWithValue, SetOrganization, SetUserAgent, display names via FromFormat/EnvelopeFromFormat/ReplyToFormat/AddToFormat/AddCcFormat/AddBccFormat/To/ToIgnoreInvalid/RequestMDNToFormat/RequestMDNAddToFormat, file names, file descriptions, file content-ids, part descriptions (as an option at creation, or through Part.SetDescription on the part handed out by GetParts). " +
 		"Oracle: strict scan of every header section of WriteTo's output: only field and continuation lines, and no bare CR or LF anywhere in a header section (a strict reader ends lines at CRLF only, net/mail and most agents also at a bare LF, so such a byte makes the section parse to other fields there); field-name multiset == fields set + documented defaults; leaves carry exactly the supplied content (so no section ended early); every free-text value RFC 2047-decodes (whitespace-normalised) to the string set; address fields parse (own RFC 5322 parser) to the names and mailboxes set; or the setter returned an error. " +
 		"TestC02Enum additionally feeds every string of a fixed list of ~70 single hostile strings (each CR/LF injection form, each control/special/non-ASCII constant, lookalikes, 300-byte words) to every one of 22 setters x both encoders x 4 shapes, completely. Non-trivial: some string has a byte outside printable ASCII, an RFC 5322 special, or > 60 bytes. Distinct by (encoder, shape, setter sequence, class set, which setters were used)."
 	rec.Assumptions = []string{"*Preformatted setters and header names are excluded (raw by contract)", "IgnoreInvalid setters may drop an entry silently; then the field must be absent"}
@@ -472,7 +473,7 @@ func TestC02Enum(t *testing.T) {
 		parts, embeds, attach int
 	}
 	shapes := []shape{{1, 0, 0}, {2, 0, 1}, {1, 1, 1}, {0, 0, 1}}
-	setters := []string{"subject", "genheader", "genheader3", "msgid", "org", "ua", "partdesc", "filename", "filedesc", "filecid", "embedname", "embedcid"}
+	setters := []string{"subject", "genheader", "genheader3", "msgid", "org", "ua", "partdesc", "partdesc-setter", "filename", "filedesc", "filecid", "embedname", "embedcid"}
 	setters = append(setters, c02Setters...)
 	idx := 0
 	for _, enc := range []string{"quoted-printable", "base64"} {
@@ -505,11 +506,12 @@ func TestC02Enum(t *testing.T) {
 						c.Organization = &s
 					case "ua":
 						c.UserAgent = &s
-					case "partdesc":
+					case "partdesc", "partdesc-setter":
 						if len(c.Spec.Parts) == 0 {
 							continue
 						}
 						c.Spec.Parts[len(c.Spec.Parts)-1].Desc = s
+						c.Spec.Parts[len(c.Spec.Parts)-1].DescBySetter = setter == "partdesc-setter"
 					case "filename", "filedesc", "filecid":
 						if len(c.Spec.Attachments) == 0 {
 							continue
